@@ -294,7 +294,14 @@ impl<'a> Gen<'a> {
       self.feat("overdeclared");
       return if (k / all.len()) % 2 == 1 { (Some(c28::brotli_compress(&b)), br) } else { (Some(b), None) };
     }
-    match self.rng.below(9) {
+    match self.rng.below(10) {
+      9 => {
+        // crafted gallery with missing / malformed ids or odd txids
+        let all = c28::idless_galleries();
+        let b = self.rng.pick(&all).clone();
+        self.feat("idless-gallery");
+        if self.rng.chance(1, 4) { (Some(c28::brotli_compress(&b)), br) } else { (Some(b), None) }
+      }
       0 => (Some(c28::malformed(self.rng)), None),
       1 => {
         // valid properties whose gallery points at existing inscriptions
